@@ -1,4 +1,5 @@
 import ZChain.Proofs.LedgerStep
+import ZChain.Proofs.Genesis
 /-!
 # C01 — Total token supply is conserved by every transaction
 
@@ -62,6 +63,49 @@ theorem txn_flow (feeOn : Bool) (s : St) (t : Txn) (r : CResult) (h : (step feeO
   refine ⟨p, hp, fun i => ?_⟩
   rw [he]
   exact (settle_get feeOn s.accts a t p.transfers p.signed hs i).1
+
+/-- **genesis_total**: if the node starts at all (`mustInitGBState` does not panic) and no id is written
+twice by the initial-state file, the genesis balances sum to exactly the maximum supply. -/
+theorem genesis_total (cfg : List GenSC) (a : Accts) (h : genesis cfg = some a) (hnd : (genIds cfg).Nodup) :
+    total a = maxTokenSupply := by
+  unfold genesis at h
+  cases hg : genesisGo [] 0 cfg with
+  | none => simp [hg] at h
+  | some r =>
+    obtain ⟨a', tot⟩ := r
+    simp only [hg] at h
+    split at h
+    · simp at h
+    · rename_i hne
+      injection h with h
+      subst h
+      have := genesisGo_total cfg [] 0 a' tot hg hnd (fun i _ => rfl)
+      have htot : tot = maxTokenSupply := Classical.not_not.mp hne
+      simp only [total, List.map_nil, List.sum_nil] at this
+      simp only [total]; omega
+
+/-- the distinctness hypothesis is needed: `SetClientState` overwrites, so an id listed twice keeps only
+the last amount and the genesis total falls short although every start-up check passes
+(an operator-supplied file, not a transaction: recorded as information, see DESIGN.md C01). -/
+theorem genesis_duplicate_id_loses_tokens :
+    ∃ cfg a, genesis cfg = some a ∧ total a < maxTokenSupply :=
+  ⟨[⟨1, maxTokenSupply, [(5, 100), (5, 7)]⟩], _, rfl, by decide⟩
+
+/-- a contract entry whose clients receive more than the contract declares stops the node (no wrap). -/
+theorem genesis_over_allocation_panics (id t : Nat) (cl : List (Id × Nat)) (rest : List GenSC)
+    (h : t < (cl.map (·.2)).sum) : genesis (⟨id, t, cl⟩ :: rest) = none := by
+  have hw : genWrites ⟨id, t, cl⟩ = none := by
+    unfold genWrites; simp only; split
+    · rfl
+    · simp [h]
+  have hg : genesisGo [] 0 (⟨id, t, cl⟩ :: rest) = none := by
+    unfold genesisGo; split
+    · rfl
+    · simp [hw]
+  unfold genesis; rw [hg]
+
+example : genesis [⟨1, 3999999999999999000, [(5, 100), (6, 7)]⟩, ⟨2, 1000, []⟩] =
+    some [(5, ⟨100, 1⟩), (6, ⟨7, 1⟩), (1, ⟨3999999999999998893, 1⟩), (2, ⟨1000, 1⟩)] := by decide
 
 -- non-vacuity: a "minting" contract call (pays from the contract's own wallet 7), a failing call,
 -- and a plain send all go through `step` un-rejected on a concrete state.
